@@ -88,6 +88,9 @@ CellWhys(c, inf) ==
     IF Len(c.kept) # Cardinality(SeqSet(c.kept)) THEN "P:C10:kept-list-contains-duplicates" ELSE "ok",
     IF c.size # Cardinality(inf.keptSpec) THEN "P:C10:Size()-is-not-the-number-of-words-kept" ELSE "ok",
     IF c.inputTouched = 1 THEN "P:C10:callers-slice-modified" ELSE "ok",
+    IF c.aliased = 1 THEN "P:C10:the-list-changes-when-the-caller-later-reuses-the-slice-it-passed-in" ELSE "ok",
+    IF c.prevChg > 0 THEN "P:C05:a-password-returned-earlier-changed-when-a-later-one-was-generated" ELSE "ok",
+    IF c.prevChg > 0 THEN "P:C15:a-password-returned-earlier-changed-when-a-later-one-was-generated" ELSE "ok",
     IF c.mutated = 1 THEN "P:C15:call-changed-the-recipe-or-the-word-list" ELSE "ok",
     IF c.twinDiff = 1 THEN "P:C15:results-differ-from-a-fresh-recipe-with-the-same-field-values-on-the-same-bytes" ELSE "ok",
     IF c.ent.k = "panic" THEN "P:C14:Entropy()-panicked-on-a-recipe-with-a-list" ELSE "ok",
